@@ -95,7 +95,26 @@ def seeds(name, limit=None):
                 second.append((s, v))
             else:
                 rest.append((s, v))
-        _cache[name] = (first + second + rest, rejected)
+        # ... interleaved with one representative per *presentation* class (the written form with runs of digits and of
+        # letters collapsed: 'a. a. a.: a9/9/9' is another class than 'a9/9/9'), longest spelling first: a documented
+        # decoration (label, prefix, other separators) is among the first seeds even when its canonical shape is common
+        def dec(x):
+            return re.sub(r'[A-Za-z]+', 'a', re.sub(r'[0-9]+', '9', x))
+        seen_dec, deco = set(), []
+        for s, v in sorted(acc, key=lambda sv: (-len(dec(sv[0])), -len(sv[0]), sv[0])):
+            d = dec(s)
+            if d not in seen_dec:
+                seen_dec.add(d)
+                deco.append((s, v))
+        ordered = []
+        for i in range(max(len(first), len(deco))):
+            for lst in (first, deco):
+                if i < len(lst) and lst[i] not in ordered:
+                    ordered.append(lst[i])
+        for sv_ in second + rest:
+            if sv_ not in ordered:
+                ordered.append(sv_)
+        _cache[name] = (ordered, rejected)
     lst = _cache[name][0]
     return lst[:limit] if limit else lst
 
